@@ -332,6 +332,30 @@ func genC19(tier string, seed uint64, n int, e *Emitter) {
 		}
 	}
 	e.Emit(Case{Group: "runtime-types", Coq: "(RuntimeCase " + coqList(pts) + ")", Desc: descs, NT: true, Tags: []string{"runtime-types"}})
+	// planning one document does not depend on the number of implementers of the abstract
+	// types it goes through (k = 0: nothing is executed)
+	ipts := []string{}
+	idescs := []string{}
+	for _, m := range []int{2, 4, 8, 16, 32} {
+		sc := c19Build(m, &one)
+		if sc == nil {
+			continue
+		}
+		doc, err := parser.Parse(parser.ParseParams{Source: "{ if0 { a if0 { a ... on O0 { b if0 { a } } } } lif0 { a ... on O1 { b } } }"})
+		if err != nil {
+			continue
+		}
+		graphql.VerifResetCounters()
+		var perr error
+		if f := guard(func() { _, perr = graphql.PlanQuery(&sc.built.Schema, doc, "") }); f != "" || perr != nil {
+			e.Emit(Case{Group: "implementers", Fail: fmt.Sprint("PlanQuery: ", f, perr)})
+			continue
+		}
+		c := c19Counters()
+		ipts = append(ipts, fmt.Sprintf("(0, (%d, %d))", m, c[1]+1000*c[0]))
+		idescs = append(idescs, fmt.Sprintf("m=%d planning calls=%d collectInto=%d", m, c[1], c[0]))
+	}
+	e.Emit(Case{Group: "implementers", Coq: "(ImplementersCase " + coqList(ipts) + ")", Desc: idescs, NT: true, Tags: []string{"implementers"}})
 	_ = seed
 	_ = n
 }
